@@ -1,0 +1,27 @@
+//go:build verif
+
+// Contracts of package nut07 for the govc verifier (/verif). Comment-only file,
+// compiled only with the build tag `verif`.
+package nut07
+
+// NUT-07 proof states on the wire are the strings UNSPENT / PENDING / SPENT.
+//@ macro statestr(st) = (st == Unspent ? "UNSPENT" : (st == Pending ? "PENDING" : (st == Spent ? "SPENT" : "unknown")))
+
+//@ func (State).String
+//@   tags C20 C15
+//@   safety C06 C20
+//@   ensures @wire [C20] result == statestr(state)
+
+//@ func StringToState
+//@   tags C20 C15
+//@   safety C06 C20
+//@   ensures @wire [C20] (state == "UNSPENT" ==> result == Unspent) && (state == "PENDING" ==> result == Pending) && (state == "SPENT" ==> result == Spent)
+//@   ensures @inverse [C20] result != Unknown ==> statestr(result) == state
+//@   ensures @unknown [C20] state != "UNSPENT" && state != "PENDING" && state != "SPENT" ==> result == Unknown
+
+// what is marshalled for one proof state: Y and witness copied, the state as its NUT-07 string
+//@ struct tempProofState [C20] Y State Witness
+//@ func (*ProofState).MarshalJSON
+//@   tags C20 C15
+//@   safety C06 C20
+//@   calls json.Marshal asserts @wire [C20] typeis(v, tempProofState) && unbox(v, tempProofState).State == statestr(state.State) && unbox(v, tempProofState).Y == state.Y && unbox(v, tempProofState).Witness == state.Witness
